@@ -67,7 +67,12 @@ def oracle(case, tag, line):
         return [("harness", "harness error: " + line[:200])]
     c = parse_case(case)
     f = dict(x.split("=", 1) for x in line.split() if "=" in x)
-    attempts = re.findall(r"a\d+:(\S*)", line)
+    attempts = re.findall(r"a\d+[pm]?:(\S*)", line)
+    kinds = re.findall(r"a\d+([pm]):", line)
+    if c["hs"] == 3 and "p" in kinds:
+        bad.append(("plaintext-attempt-despite-handshake-require", "policy handshake=require but the library dialled / re-dialled with a plaintext handshake"))
+    if c["hs"] == 0 and "m" in kinds:
+        bad.append(("mse-attempt-despite-handshake-deny", "policy handshake=deny but the library dialled / re-dialled with an MSE handshake"))
     last = attempts[-1].split(",")[-1] if attempts and attempts[-1] else ""
     ok = last == "ok"
     alive = bool(re.match(r"^\d+\.\d+\.\d+$", last))
@@ -145,11 +150,11 @@ def run(rep, tier, seed, replay):
     for i, case in enumerate(cases):
         m = mo[i] if i < len(mo) else "MISSING"
         o = io[i] if i < len(io) else "MISSING"
-        last = re.findall(r"a\d+:(\S*)", o)
+        last = re.findall(r"a\d+[pm]?:(\S*)", o)
         lastv = last[-1].split(",")[-1] if last and last[-1] else o[:12]
         key = "alive" if re.match(r"^\d+\.\d+\.\d+$", lastv) else lastv
         outcomes[key] = outcomes.get(key, 0) + 1
-        if re.search(r"a\d+:(\d+\.\d+\.\d+,|ok)", o) or "ok" in o:
+        if re.search(r"a\d+[pm]?:(\d+\.\d+\.\d+,|ok)", o) or "ok" in o:
             nontrivial.add(hashlib.sha1(case.encode()).digest())
         if "lib=late" in o:
             late += 1
@@ -159,7 +164,7 @@ def run(rep, tier, seed, replay):
         viol = oracle(case, tg, o)
         if m != norm(o):
             mism += 1
-            ml = re.findall(r"a\d+:(\S*)", m)
+            ml = re.findall(r"a\d+[pm]?:(\S*)", m)
             mlast = ml[-1].split(",")[-1] if ml and ml[-1] else ""
             if not viol and mlast.startswith("f") and lastv == "ok":
                 viol = [("malformed-handshake-accepted", "a handshake the code as modelled rejects (%s) was accepted" % mlast)]
